@@ -4,6 +4,7 @@ from ..access import field_accesses
 from ..core import RuleResult, need
 from ..facts import callee, op_local, op_place, place_fields
 from .c13 import r57
+from ..origins import Origins, calls_in
 
 ENV = "ucglib::build::opcode::environment::Environment"
 CTOR = "ucglib::build::opcode::environment::Environment::new_with_vars"
@@ -253,4 +254,31 @@ def r48s(F):
     return r
 
 
-RULES = [r48, r48m, r48s, r57]
+def r48k(F):
+    r = RuleResult("R48k", "one key per file for the out lock",
+                   "get_out_lock_for_path, set_out_lock_for_path and reset_out_lock_for_path derive the key they look up / insert / "
+                   "remove from their path argument by the same conversions: a lock taken under one spelling of a path and released "
+                   "under another stays set for the next evaluation of the file", floor=3, exhaustive=True)
+    ENV = "ucglib::build::opcode::environment::Environment::"
+    NEUTRAL = ("::as_ref", "::into", "::borrow", "::deref", "::to_path_buf", "::to_owned", "::clone", "::from", "::as_path")
+    sig = {}
+    for name, ops in (("get_out_lock_for_path", ("contains", "get")), ("set_out_lock_for_path", ("insert",)), ("reset_out_lock_for_path", ("remove", "take"))):
+        fn = F.fn(ENV + name)
+        o = Origins(fn)
+        sites = [(b, t) for b, t in fn.calls() if callee(t).split("::")[-1] in ops and ("Set" in callee(t) or "Map" in callee(t))]
+        need(len(sites) == 1, "%s: the set operation on out_lock was not found" % name)
+        b, t = sites[0]
+        cs = {c for c in calls_in(o.at(t["args"][1], b)) if not c.endswith(NEUTRAL)}
+        sig[name] = (fn, b, frozenset(cs))
+    ref = sig["set_out_lock_for_path"][2]
+    for name, (fn, b, cs) in sorted(sig.items()):
+        ok = cs == ref
+        r.inst(name, fn.where(b), ok,
+               "key = the path as given%s" % (" through " + ", ".join(sorted(x.split("::")[-1] for x in cs)) if cs else "") if ok else
+               "%s derives its key through {%s} but set_out_lock_for_path through {%s}: `ucg build ../main.ucg ../lib.ucg` (lib imported "
+               "by main and built again) fails with \"one output per file\"" % (name, ", ".join(sorted(x.split("::")[-1] for x in cs)) or "-",
+                                                                                 ", ".join(sorted(x.split("::")[-1] for x in ref)) or "-"))
+    return r
+
+
+RULES = [r48, r48m, r48s, r57, r48k]
